@@ -286,6 +286,8 @@ def lex_compare(ctx, stream, sources, sample=2, segment_spec=False, spec_op='spe
         ctx.count('lex_' + cl)
         if g != m:
             ctx.disagreement(stream, c, g, m)
+        if g.endswith(' SRC-CHANGED') or g.endswith(' RELEX-DIFFERS'):
+            ctx.violation(stream + ':text-rewritten', c, g, 'lexing leaves the program text as it was, and the same text lexes the same way again')
         if spec is not None and g.split(' |')[0] != spec[i]:
             ctx.violation(stream, c, g, spec[i])
         if ntokens(g) >= 3 or cl.startswith('err'):
